@@ -3,8 +3,12 @@
 Under contract: RateMatrix.set_rate, RateMatrix.__init__, PopulationPropagator.__init__,
 PopulationPropagator._propagate_short_exp, PopulationPropagator.propagate.
 """
+import z3
+
 from qvc.main import Plan
-from qvc.spec import Contract, clause_lemma
+from qvc.spec import Contract, clause_lemma, ClauseExec
+from qvc.values import Builtin, SymArr
+from qvc import values as V
 from qvc import lemmalib
 
 RM = "quantarhei/qm/liouvillespace/rates/ratematrix.py::"
@@ -18,9 +22,18 @@ META = dict(
           "an invariant of every set_rate history from a zero-column-sum matrix (the constructor's zero matrix is "
           "proved to be one). _propagate_short_exp is proved, with loop invariants for the time/refinement/order "
           "loops and symbolic sizes, Nref and expansion order L, to keep the sum of populations at every stored time "
-          "equal to the initial sum whenever the columns of the rate matrix sum to zero. Not decided: non-negativity "
-          "and agreement with the matrix exponential (truncation error), get_PropagationMatrix values (numpy.linalg.eig)."),
-    note="numpy.dot is its defining finite sum; ndarray.data is treated as the array itself.",
+          "equal to the initial sum whenever the columns of the rate matrix sum to zero. get_PropagationMatrix (no "
+          "correction terms requested) is proved, for every dimension, sub-axis length and the three ways the start of "
+          "the sub-axis can lie (same start / shifted by a whole number of its steps / shifted otherwise), to return at "
+          "every time index k of the sub-axis the spectral exponential SS diag(e0 . exp(Kd step)^(n0+k)) S1 of the "
+          "eigen-decomposition it computed (e0 = exp(Kd shift), n0 = 0 for a fractional shift; e0 = 1, n0 = number of "
+          "whole steps otherwise): loop invariants for the step loops, the product rule of two matrices with common "
+          "eigenvectors as a Lean lemma. Not decided: non-negativity and agreement of the short-exponential "
+          "propagation with the matrix exponential (truncation error)."),
+    note="numpy.dot is its defining finite sum; ndarray.data is treated as the array itself; numpy.linalg.eig / inv "
+         "are assumed by contract (K = SS diag(Kd) S1 is not checked, S1 SS = SS S1 = 1 is assumed, the spectrum is "
+         "taken real); exp(x)^k is an uninterpreted power with pw(x,0) = 1, pw(x,k) = x pw(x,k-1) for x > 0; "
+         "TimeAxis.is_subset_of is a stub answering True (floating-point membership tests are not modelled).",
     technique="VCs from the real AST with sidecar loop invariants, z3; column-sum and Taylor-step lemmas in Lean 4 "
               "printed from the same clauses and imported as instances",
 )
@@ -99,6 +112,86 @@ def contracts(reg):
         PP + "PopulationPropagator.__init__", setup=setup_ppi, requires=[],
         ensures=[("Nt-is-axis-length", "self.Nt == self.timeAxis.length"), ("Nref-one", "self.Nref == 1"),
                  ("dt-is-step", "self.dt == timeaxis.step")]))
+
+    # ---- propagation matrix on a sub-axis: spectral exponential ----------------------------------------------------------------------
+    # numpy.linalg.eig / inv are assumed by contract: K = SS diag(Kd) S1 with S1 SS = SS S1 = 1 (so that
+    # exp(K t) = SS diag(exp(Kd t)) S1); the spectrum is taken real here (detailed-balance rate matrices; for a complex
+    # spectrum NumPy discards the - mathematically vanishing - imaginary parts when U is filled).  pw(x, k) is the
+    # k-th power of x > 0 for every integer k (pw(x,0) = 1, pw(x,k) = x pw(x,k-1)); pw(exp(y), k) = exp(k y).
+    T = reg.models.table
+    _pw = z3.Function("u_pw", z3.RealSort(), z3.IntSort(), z3.RealSort())
+    T["pw"] = Builtin("pw", lambda ex, a, k, l: _pw(V.z3real(a[0]), V.z3int(a[1])))
+    T["exp"] = T["numpy.exp"]
+    _orig_inv = T["numpy.linalg.inv"]
+
+    def eig_real(ex, a, k, l):
+        h = a[0]
+        n = h.shape[0]
+        ex.used_models.add("assume:numpy.linalg.eig returns a real spectrum and real eigenvectors (diagonalisable rate matrix with real eigenvalues)")
+        return (SymArr((n,), "real", name="eigvals"), SymArr((n, n), "real", name="eigvecs"))
+
+    def inv_with_facts(ex, a, k, l):
+        r = _orig_inv.fn(ex, a, k, l)
+        x = a[0]
+        ex.used_models.add("assume:numpy.linalg.inv returns the two-sided inverse (S1 SS = SS S1 = 1)")
+        env = dict(S1_=r, SS_=x, n_=x.shape[0])
+        for cl in ("forall((c, d), (range(0, n_), range(0, n_)), Sum(m, range(0, n_), S1_[c,m]*SS_[m,d]) == ite(c == d, 1, 0))",
+                   "forall((c, d), (range(0, n_), range(0, n_)), Sum(m, range(0, n_), SS_[c,m]*S1_[m,d]) == ite(c == d, 1, 0))"):
+            ex.assume(V.z3bool(ClauseExec(ex, dict(env)).run(cl)))
+        return r
+
+    def setup_pm(S, same_start):
+        n, nt = S.int("N"), S.int("nt")
+        s0 = S.real("s0")
+        own = S.obj("TimeAxis(stub)", label="ownaxis", start=s0, step=S.real("ownstep"), length=S.int("ownlength"))
+        sub = S.obj("TimeAxis(stub)", label="timeaxis", start=(s0 if same_start else S.real("s1")), step=S.real("step"),
+                    length=nt, data=S.array("tdata", (nt,), "real"),
+                    is_subset_of=Builtin("timeaxis.is_subset_of", lambda ex, a, k, l: True))
+        pp = S.obj(PP + "PopulationPropagator", label="self", timeAxis=own, KK=S.array("KK", (n, n), "real"),
+                   dt=S.real("dt"), Nref=1, Nt=own.fields["length"])
+        T["numpy.linalg.eig"] = Builtin("numpy.linalg.eig", eig_real)
+        T["numpy.linalg.inv"] = Builtin("numpy.linalg.inv", inv_with_facts)
+        return dict(self=pp, timeaxis=sub, corrections=-1, exact=False, N=n, nt=nt, step=sub.fields["step"],
+                    shift=V.arith("-", sub.fields["start"], s0))
+    ESTEP = "exp({kd}[c]*step)"
+    FORM = "Sum(c, range(0, N), {ss}[a,c]*({e0}*pw(%s, {k}))*{s1}[c,b])" % ESTEP
+    loc = dict(ss="local_SS", s1="local_S1", kd="local_Kd")
+    cod = dict(ss="SS", s1="S1", kd="Kd")
+    E1 = "lambda c: exp(Kd[c]*step)"
+
+    def compose(B, e2):
+        return ("spectral_compose", {"n": "N", "SS": "SS", "S1": "S1", "A": "expKd_step", "B": B, "e1": E1, "e2": e2})
+
+    def pm_loops(e0, off="0"):
+        # e0: factor at the start of the sub-axis that is not a power of the step factor; off: whole steps already taken
+        return {0: dict(inv=["forall((a, b), (range(0, N), range(0, N)), U0[a,b] == %s)" % FORM.format(e0="1", k="_i", **cod)],
+                        modifies=["U0"],
+                        use_post=[compose("pre(U0)", "lambda c: 1*pw(exp(Kd[c]*step), _i)")]),
+                1: dict(inv=["forall((a, b, k), (range(0, N), range(0, N), range(0, _i)), U[a,b,k] == %s)"
+                             % FORM.format(e0=e0, k="%s + k" % off, **cod)],
+                        modifies=["U"],
+                        use_post=[compose("pre(U)[:,:,_i-1]", "lambda c: (%s)*pw(exp(Kd[c]*step), %s + _i - 1)" % (e0, off))])}
+    ALL = "forall((a, b, k), (range(0, N), range(0, N), range(0, nt)), result[a,b,k] == %s)"
+    reg.add(Contract(
+        PP + "PopulationPropagator.get_PropagationMatrix#same-start", setup=lambda S: setup_pm(S, True),
+        requires=["N >= 1", "nt >= 1"],
+        ensures=[("spectral-exponential-at-every-time-of-the-sub-axis", ALL % FORM.format(e0="1", k="0 + k", **loc))],
+        loops=pm_loops("1"), expose_locals=["SS", "S1", "Kd"]))
+    reg.add(Contract(
+        PP + "PopulationPropagator.get_PropagationMatrix#start-shifted-by-whole-steps", setup=lambda S: setup_pm(S, False),
+        requires=["N >= 1", "nt >= 1", "shift > 0", "step > 0",
+                  ("shift-is-a-whole-number-of-steps", "exists(q, ints, q >= 1 and shift == q*step and shift/step == q)")],
+        ensures=[("whole-steps-counted-exactly", "local_Ns*step == shift"),
+                 ("spectral-exponential-at-every-time-of-the-sub-axis",
+                  ALL % FORM.format(e0="1", k="local_Ns + k", **loc))],
+        loops=pm_loops("1", off="Ns"), expose_locals=["SS", "S1", "Kd", "Ns"]))
+    reg.add(Contract(
+        PP + "PopulationPropagator.get_PropagationMatrix#start-shifted-otherwise", setup=lambda S: setup_pm(S, False),
+        requires=["N >= 1", "nt >= 1", "shift > 0", "step > 0",
+                  ("shift-is-not-a-whole-number-of-steps", "forall(q, ints, shift != q*step)")],
+        ensures=[("spectral-exponential-at-every-time-of-the-sub-axis",
+                  ALL % FORM.format(e0="exp(local_Kd[c]*shift)", k="0 + k", **loc))],
+        loops=pm_loops("exp(Kd[c]*shift)"), expose_locals=["SS", "S1", "Kd"]))
 
 
 def lemma_colsum(ctx):
@@ -192,14 +285,23 @@ def plan(ctx):
     contracts(ctx.registry)
     p.functions = [RM + "RateMatrix.set_rate", RM + "RateMatrix.__init__#dim",
                    PP + "PopulationPropagator.__init__", PP + "PopulationPropagator._propagate_short_exp",
-                   PP + "PopulationPropagator._propagate_short_exp#integer-initial-populations"]
+                   PP + "PopulationPropagator._propagate_short_exp#integer-initial-populations",
+                   PP + "PopulationPropagator.get_PropagationMatrix#same-start",
+                   PP + "PopulationPropagator.get_PropagationMatrix#start-shifted-by-whole-steps",
+                   PP + "PopulationPropagator.get_PropagationMatrix#start-shifted-otherwise"]
+    x, k = z3.Real("ax_x"), z3.Int("ax_k")
+    pw = z3.Function("u_pw", z3.RealSort(), z3.IntSort(), z3.RealSort())
+    p.extra_axioms = [z3.ForAll([x, k], z3.Implies(k == 0, pw(x, k) == 1), patterns=[pw(x, k)]),
+                      z3.ForAll([x, k], z3.Implies(x > 0, pw(x, k) == x * pw(x, k - 1)), patterns=[pw(x, k)])]
     p.lemmas = [lemma_colsum]
     p.replayers = [replayer]
     p.oracles = ["native/oracle_C17.py"]
     p.not_decided = ["non-negativity of populations for admissible steps and agreement with exp(K t) within the "
                      "truncation bound (error analysis of a truncated Taylor series)",
-                     "get_PropagationMatrix: values depend on numpy.linalg.eig/inv of a non-symmetric matrix and on "
-                     "floating-point `in` tests of is_subset_of"]
+                     "get_PropagationMatrix: the perturbative correction terms (corrections >= 0); rate matrices with a "
+                     "complex spectrum; ValueAxis.is_subset_of (floating-point `in` tests)"]
+    p.trusted = ["numpy.linalg.eig returns (Kd, SS) with K SS = SS diag(Kd), numpy.linalg.inv the two-sided inverse; real spectrum",
+                 "exp(K t) = SS diag(exp(Kd t)) S1 for a diagonalisable K; exp(y)^k = exp(k y)"]
     p.api_preconditions = ["PopulationPropagator conserves the total only for rate matrices with zero column sums "
                            "(what RateMatrix histories guarantee); arbitrary arrays passed as rate_matrix are the caller's"]
     return p
